@@ -179,7 +179,7 @@ def c_coin_positions(ctx, args):
     return None
 
 
-CHECKS = {'coin_positions': c_coin_positions, 'coin_joint': c_coin_joint, 'coin_fair': c_coin_fair, 'measure': c_measure, 'measure_forms': c_measure_forms}
+CHECKS = {'layer': __import__('props.C14', fromlist=['c_layer']).c_layer, 'coin_positions': c_coin_positions, 'coin_joint': c_coin_joint, 'coin_fair': c_coin_fair, 'measure': c_measure, 'measure_forms': c_measure_forms}
 
 
 def all_tableaux_1q():
@@ -240,6 +240,10 @@ def run(ctx):
         t = gen.rtableau(rng, ctx.model, n)
         do(ctx, 'measure', [t, gen.commuting_obs(rng, ctx.model, n, rng.randint(1, 4)), rng.randrange(10 ** 6)], nontrivial=('big', n))
         do(ctx, 'measure', [t, [[t[0][rng.randrange(n)][0], rng.choice([0, 2])]], rng.randrange(10 ** 6)], nontrivial=('bigs', n))
+    # Z measurements through a MeasureLayer: same outcomes, log2prob, state and rank as the direct measurement (every rank; the layer keeps using the state's own arrays)
+    for it in range(int(80 * B)):
+        n = rng.randint(1, 5)
+        do(ctx, 'layer', [n, rng.sample(range(n), rng.randint(1, n)), gen.rtableau(rng, ctx.model, n, r=rng.randint(0, n), depth=rng.choice([0, 1, None])), rng.randrange(10 ** 6)], nontrivial=('ly', it))
     # argument forms: a StabilizerState argument of every rank against a measured state of every rank
     for it in range(int(80 * B)):
         n = rng.randint(1, 5)
